@@ -1459,6 +1459,11 @@ func tamperOnce(b *base, seg *segment, scn *scenario, wipe bool, desc gate.Event
 				o = "wrong"
 				nw++
 				line["detail"] = fmt.Sprintf("fetch of rank %d: %v", r, ev["detail"])
+			case "notexist":
+				// the store answers as if the blob had never been stored: the damage went unnoticed
+				o = "gone"
+				nf++
+				line["detail"] = fmt.Sprintf("fetch of rank %d: %v", r, ev["detail"])
 			default:
 				nf++
 			}
